@@ -292,12 +292,70 @@ _TREES = []
 _NODES = []
 
 
+def _after_ops():
+    return [("identity-transformer", lambda n: decode(visitor.NodeTransformer().visit(n))),
+            ("traversal", lambda n: [type(x).__name__ for x in _recorded(n)]),
+            ("override:Identifier", lambda n: decode(make_k_transformer("Identifier").visit(n))),
+            ("alias", lambda n: decode(AliasRewriter({"a": "c/d", "zz": "y"}).visit(n))),
+            ("stripper", lambda n: decode(IdentifierStripper(ast.Identifier("a")).visit(n))),
+            ("roundtrip", lambda n: AstToODataVisitor().visit(n)),
+            ("equality", lambda n: n == encode(decode(n)))]
+
+
+def _recorded(n):
+    rec = Recorder()
+    rec.visit(n)
+    return rec.seen
+
+
+def _run_op(fn, n):
+    try:
+        return ("ok", fn(n))
+    except Exception as e:  # noqa
+        return ("exc", type(e).__name__)
+
+
+def check_shared_tree(acc, t):
+    """operation pairs on ONE tree object: after a shipped visitor has translated the tree, every base-class operation on the same
+    object must behave as on a fresh copy (a translation must not leave anything behind in the nodes it was given)"""
+    ops = _after_ops()
+    fresh = {name: _run_op(fn, encode(t)) for name, fn in ops}
+    for vname, mk in shipped():
+        node = encode(t)
+        try:
+            mk().visit(node)
+        except Exception:  # noqa
+            pass
+        for name, fn in ops:
+            acc.count("executions")
+            acc.count("transitions")
+            got = _run_op(fn, node)
+            if got != fresh[name]:
+                acc.violation("shared-tree:%s-then-%s" % (vname if vname in ("django", "sa-orm", "sa-core") else "visitor", name),
+                              {"tree": t, "first": vname, "then": name, "expected": fresh[name], "observed": got, "check": "shared-tree"})
+                break
+        else:
+            acc.outcome(("shared-tree-ok", vname))
+
+
+def _shared_unit(trees):
+    acc = Acc()
+    for t in trees:
+        acc.count("states")
+        check_shared_tree(acc, t)
+    return acc
+
+
 def run(ctx):
     global _TREES, _NODES
     trees = all_trees(full=not ctx.quick)
     shipped()
     ctx.pmap(_unit, list(chunked(trees, max(1, len(trees) // 64 + 1))))
     ctx.layer("trees", trees=len(trees), node_classes=len(NODE_CLASSES), shipped_visitors=len(shipped()), exhaustive=True)
+    st = trees if not ctx.quick else trees[::3]
+    ctx.pmap(_shared_unit, list(chunked(st, max(1, len(st) // 64 + 1))))
+    ctx.layer("shared-tree-histories", trees=len(st), first_operations=len(shipped()), then_operations=len(_after_ops()), exhaustive=True,
+              note="every shipped visitor, then every base-class operation, on one tree object; compared with the operation on a fresh copy")
     sub = trees if not ctx.quick else trees[::2]
     _TREES = sub
     _NODES = [encode(t) for t in sub]
@@ -316,6 +374,10 @@ def replay(ctx, case):
         l, r = _untuple(case["left"]), _untuple(case["right"])
         eq = encode(l) == encode(r)
         return {"left": l, "right": r, "eq": eq, "ok": eq == (l == r)}
+    if case["check"] == "shared-tree":
+        shipped()
+        check_shared_tree(acc, _untuple(case["tree"]))
+        return {"tree": case["tree"], "violations": acc.violations, "ok": not acc.violations}
     check_tree(acc, _untuple(case["tree"]))
     check_late_handlers(acc, _untuple(case["tree"]))
     return {"tree": case["tree"], "violations": acc.violations, "ok": not acc.violations}
